@@ -5,6 +5,7 @@ import copy
 import datetime
 import functools
 import json
+import fractions
 import math
 import random
 
@@ -239,6 +240,10 @@ def one_relational(rnd, acc, api):
                     return
         elif kind == 'agg':
             numrows = [{**row, 'm': rnd.choice([1, 2, 3.5, None, 10, -4, 0.25])} for row in rows]
+            if rnd.random() < 0.25:
+                # large magnitude, small spread (epoch milliseconds, order numbers): squares exceed 2**53
+                big = rnd.choice([1700000000000, 10 ** 9, 123456789012, 10 ** 15 - 20, 4.5e15, -(10 ** 12)])
+                numrows = [{**row, 'm': (big + rnd.randint(0, 9) + rnd.choice([0, 0, 0.5])) if rnd.random() < 0.9 else None} for row in rows]
             if rnd.random() < 0.1:
                 for row in numrows:
                     row.pop('m', None) if rnd.random() < 0.5 else None
@@ -281,10 +286,12 @@ def one_relational(rnd, acc, api):
                     return min(vals)
                 if f == 'max':
                     return max(vals)
+                # exact rational arithmetic: the mean and the variance are rounded once, at the end (two-pass definition)
+                fr = [fractions.Fraction(x) for x in vals]
+                mu = sum(fr) / len(fr)
                 if f == 'average':
-                    return math.fsum(vals) / len(vals)
-                mu = math.fsum(vals) / len(vals)
-                return math.sqrt(math.fsum((x - mu) ** 2 for x in vals) / len(vals))
+                    return float(mu)
+                return math.sqrt(float(sum((x - mu) ** 2 for x in fr) / len(fr)))
             exp = []
             for key, g in groups_of(numrows, cats):
                 vals = [x['m'] for x in g if x.get('m') is not None]
